@@ -313,8 +313,9 @@ fn run_schedule(tpl: &Template, case: &Case, prefix: &[usize]) -> RunOut {
                         if at == "catchup.before_live" {
                             c_state = 2;
                         } else {
-                            // wait until it parks again; the retry loop may sleep up to ~0.6 s, an
-                            // early return closes the subscriber's channel
+                            // wait until it parks again (every retry of the catch-up loop is a
+                            // scheduling point of its own) or returns early, which closes the
+                            // subscriber's channel
                             let start = Instant::now();
                             loop {
                                 if GEN_C.load(SeqCst) != g {
@@ -324,9 +325,8 @@ fn run_schedule(tpl: &Template, case: &Case, prefix: &[usize]) -> RunOut {
                                     c_state = 2;
                                     break;
                                 }
-                                // while the catch-up waits in its retry loop the other actors may move
-                                if start.elapsed() > Duration::from_millis(60) {
-                                    break;
+                                if start.elapsed() > Duration::from_secs(20) {
+                                    machinery_error("catch-up neither parked nor returned");
                                 }
                                 tokio::time::sleep(Duration::from_micros(200)).await;
                             }
@@ -449,6 +449,309 @@ fn run_schedule(tpl: &Template, case: &Case, prefix: &[usize]) -> RunOut {
     out
 }
 
+// ------------------------------------------------------------------------------------------
+// the client library: every short change-id sequence streamed into SubscriptionStream
+// ------------------------------------------------------------------------------------------
+
+#[derive(Clone, Debug, serde::Serialize, serde::Deserialize)]
+enum Fr {
+    Columns,
+    Row,
+    Eoq(u64),
+    /// a change event; `bad` = its cells do not deserialize into the subscriber's row type
+    Change { id: u64, bad: bool },
+    /// the connection breaks here (the client reconnects and resumes)
+    Abort,
+}
+
+fn fr_line(f: &Fr) -> String {
+    use klukai_types::api::sqlite::ChangeType;
+    use klukai_types::api::{ChangeId, RowId};
+    let e: QueryEvent = match f {
+        Fr::Columns => QueryEvent::Columns(vec!["id".into()]),
+        Fr::Row => QueryEvent::Row(RowId(1), vec![SqliteValue::Integer(7)]),
+        Fr::Eoq(c) => QueryEvent::EndOfQuery { time: 0.0, change_id: Some(ChangeId(*c)) },
+        Fr::Change { id, bad } => QueryEvent::Change(
+            ChangeType::Update,
+            RowId(1),
+            vec![if *bad { SqliteValue::Text("not a number".into()) } else { SqliteValue::Integer(*id as i64) }],
+            ChangeId(*id),
+        ),
+        Fr::Abort => unreachable!(),
+    };
+    serde_json::to_string(&e).unwrap()
+}
+
+/// One scripted attachment: a private HTTP/2 server (axum, what the client speaks) plays the
+/// frames; `Abort` breaks the response body once the client has consumed what precedes it.
+/// Returns what the client yielded and the request URIs the server saw.
+async fn client_case(
+    frames: Vec<Fr>,
+    snapshot: bool,
+    base: u64,
+) -> (Vec<Result<klukai_types::api::TypedQueryEvent<(i64,)>, klukai_client::sub::SubscriptionError>>, Vec<String>) {
+    use futures::StreamExt;
+    use klukai_types::api::ChangeId;
+    use std::collections::VecDeque;
+    use std::sync::Arc;
+    use tokio::sync::Notify;
+    let listener = tokio::net::TcpListener::bind("127.0.0.1:0").await.unwrap();
+    let addr = listener.local_addr().unwrap();
+    // connection scripts and the number of items the client must have yielded before each break
+    let mut q: VecDeque<(Vec<String>, Option<Arc<Notify>>)> = VecDeque::new();
+    let mut breaks: Vec<(usize, Arc<Notify>)> = vec![];
+    let mut cur: Vec<String> = vec![];
+    let mut produced = 0usize;
+    for f in &frames {
+        if let Fr::Abort = f {
+            let n = Arc::new(Notify::new());
+            breaks.push((produced, n.clone()));
+            q.push_back((std::mem::take(&mut cur), Some(n)));
+        } else {
+            cur.push(fr_line(f));
+            produced += 1;
+        }
+    }
+    q.push_back((cur, None));
+    let scripts = Arc::new(Mutex::new(q));
+    let requests: Arc<Mutex<Vec<String>>> = Arc::new(Mutex::new(vec![]));
+    let app = {
+        let scripts = scripts.clone();
+        let requests = requests.clone();
+        axum::Router::new().fallback(move |uri: axum::http::Uri| {
+            let scripts = scripts.clone();
+            let requests = requests.clone();
+            async move {
+                requests.lock().unwrap().push(uri.to_string());
+                let script = scripts.lock().unwrap().pop_front();
+                let Some((lines, brk)) = script else {
+                    return axum::response::Response::builder().status(500).body(axum::body::Body::empty()).unwrap();
+                };
+                let items: Vec<Result<Bytes, std::io::Error>> = lines.into_iter().map(|l| Ok(Bytes::from(format!("{l}\n")))).collect();
+                let body = match brk {
+                    Some(n) => {
+                        let tail = futures::stream::once(async move {
+                            n.notified().await;
+                            Err::<Bytes, std::io::Error>(std::io::Error::new(std::io::ErrorKind::ConnectionReset, "scripted break"))
+                        });
+                        axum::body::Body::from_stream(futures::stream::iter(items).chain(tail))
+                    }
+                    None => axum::body::Body::from_stream(futures::stream::iter(items)),
+                };
+                axum::response::Response::builder()
+                    .status(200)
+                    .header("content-type", "application/json")
+                    .header("corro-query-id", "00000000-0000-0000-0000-000000000001")
+                    .header("corro-query-hash", "h")
+                    .body(body)
+                    .unwrap()
+            }
+        })
+    };
+    let server = tokio::spawn(async move {
+        let _ = axum::serve(listener, app).await;
+    });
+    let client = klukai_client::CorrosionApiClient::new(addr);
+    let from = if snapshot { None } else { Some(ChangeId(base)) };
+    for (n, b) in &breaks {
+        if *n == 0 {
+            b.notify_one();
+        }
+    }
+    let mut items = vec![];
+    match client.subscription_typed::<(i64,)>(uuid::Uuid::from_u128(1), false, from).await {
+        Ok(mut st) => {
+            while items.len() < 24 {
+                match tokio::time::timeout(Duration::from_secs(15), st.next()).await {
+                    Ok(Some(x)) => {
+                        items.push(x);
+                        for (n, b) in &breaks {
+                            if *n == items.len() {
+                                b.notify_one();
+                            }
+                        }
+                    }
+                    Ok(None) | Err(_) => break,
+                }
+            }
+        }
+        Err(e) => {
+            // a break before the first byte of the first response: attaching itself fails; nothing to judge
+            let _ = e;
+        }
+    }
+    server.abort();
+    let reqs = requests.lock().unwrap().clone();
+    (items, reqs)
+}
+
+/// Returns the number of sequences judged.
+fn client_part(rep: &Report, tier: Tier) -> u64 {
+    use futures::StreamExt;
+    use klukai_client::sub::SubscriptionError;
+    use klukai_types::api::TypedQueryEvent;
+    let rt = tokio::runtime::Builder::new_multi_thread().worker_threads(8).enable_all().build().unwrap();
+    let maxlen = tier.pick(3, 4) as usize;
+    let base = 2u64;
+    let ids = [2u64, 3, 4, 5, 6];
+    let mut seqs: Vec<Vec<u64>> = vec![vec![]];
+    let mut frontier: Vec<Vec<u64>> = vec![vec![]];
+    for _ in 0..maxlen {
+        let mut next = vec![];
+        for s in &frontier {
+            for i in ids {
+                let mut t = s.clone();
+                t.push(i);
+                next.push(t);
+            }
+        }
+        seqs.extend(next.iter().cloned());
+        frontier = next;
+    }
+    // all cases
+    let mut cases: Vec<(bool, Vec<Fr>)> = vec![];
+    for snapshot in [true, false] {
+        for seq in &seqs {
+            // variants: where the connection breaks (None = never), which change is undeserializable
+            let mut variants: Vec<(Option<usize>, Option<usize>)> = vec![(None, None)];
+            for a in 0..=seq.len() {
+                if a == 0 && !snapshot {
+                    continue; // a break before the first byte of a resumed stream makes attaching fail
+                }
+                variants.push((Some(a), None));
+            }
+            for b in 0..seq.len() {
+                variants.push((None, Some(b)));
+                if tier == Tier::Thorough {
+                    for a in 1..=seq.len() {
+                        variants.push((Some(a), Some(b)));
+                    }
+                }
+            }
+            for (abort_at, bad_at) in variants {
+                let mut frames: Vec<Fr> = vec![];
+                if snapshot {
+                    frames.extend([Fr::Columns, Fr::Row, Fr::Eoq(base)]);
+                }
+                for (k, id) in seq.iter().enumerate() {
+                    if abort_at == Some(k) {
+                        frames.push(Fr::Abort);
+                    }
+                    frames.push(Fr::Change { id: *id, bad: bad_at == Some(k) });
+                }
+                if abort_at == Some(seq.len()) {
+                    frames.push(Fr::Abort);
+                }
+                cases.push((snapshot, frames));
+            }
+        }
+    }
+    let results: Vec<(bool, Vec<Fr>, Vec<Result<TypedQueryEvent<(i64,)>, SubscriptionError>>, Vec<String>)> = rt.block_on(async {
+        futures::stream::iter(cases.into_iter().map(|(snapshot, frames)| async move {
+            let (items, reqs) = tokio::spawn(client_case(frames.clone(), snapshot, base)).await.unwrap();
+            (snapshot, frames, items, reqs)
+        }))
+        .buffer_unordered(96)
+        .collect()
+        .await
+    });
+    rt.shutdown_timeout(Duration::from_secs(2));
+    let mut judged = 0u64;
+    let mut gaps_reported = 0u64;
+    let mut resumes = 0u64;
+    let describe = |items: &Vec<Result<TypedQueryEvent<(i64,)>, SubscriptionError>>| -> Vec<String> {
+        items.iter().map(|i| match i { Ok(e) => format!("ok {:?}", e.meta()), Err(e) => format!("err {e}") }).collect()
+    };
+    for (snapshot, frames, items, reqs) in results {
+        judged += 1;
+        let mut last: Option<u64> = if snapshot { None } else { Some(base) };
+        let mut it = items.iter();
+        let mut reqs_expected = 1usize;
+        let mut gap_case = false;
+        let mut fail: Option<(&'static str, String)> = None;
+        for f in &frames {
+            match f {
+                Fr::Abort => {
+                    reqs_expected += 1;
+                    match (reqs.get(reqs_expected - 1), last) {
+                        (Some(r), Some(l)) => {
+                            if !(r.ends_with(&format!("from={l}")) || r.contains(&format!("from={l}&"))) {
+                                fail = Some(("C12:client-resumes-from-the-wrong-change-id", format!("request {r:?}, last change seen {l}")));
+                            } else {
+                                resumes += 1;
+                            }
+                        }
+                        (None, Some(_)) => fail = Some(("C12:client-does-not-resume-after-a-broken-connection", format!("requests {reqs:?}"))),
+                        _ => {}
+                    }
+                    if fail.is_some() {
+                        break;
+                    }
+                }
+                Fr::Columns | Fr::Row => {
+                    if !matches!(it.next(), Some(Ok(TypedQueryEvent::Columns(_))) | Some(Ok(TypedQueryEvent::Row(..)))) {
+                        fail = Some(("C12:client-lost-a-snapshot-event", String::new()));
+                        break;
+                    }
+                }
+                Fr::Eoq(c) => {
+                    if !matches!(it.next(), Some(Ok(TypedQueryEvent::EndOfQuery { .. }))) {
+                        fail = Some(("C12:client-lost-a-snapshot-event", String::new()));
+                        break;
+                    }
+                    last = Some(*c);
+                }
+                Fr::Change { id, bad } => {
+                    let got = it.next();
+                    let l = match last {
+                        Some(l) => l,
+                        None => break,
+                    };
+                    if *id == l + 1 {
+                        let ok = match got {
+                            Some(Ok(TypedQueryEvent::Change(_, _, _, cid))) => !*bad && cid.0 == *id,
+                            Some(Err(SubscriptionError::Deserialize(_))) => *bad,
+                            _ => false,
+                        };
+                        if !ok {
+                            fail = Some(("C12:client-mishandles-an-in-order-change", format!("change {id}")));
+                            break;
+                        }
+                        last = Some(*id);
+                    } else if *id > l + 1 {
+                        gap_case = true;
+                        let ok = matches!(got, Some(Err(SubscriptionError::MissedChange { expected, got })) if expected.0 == l + 1 && got.0 == *id);
+                        if !ok {
+                            fail = Some(("C12:client-does-not-report-a-gap", format!("last seen {l}, next event {id}")));
+                        } else {
+                            gaps_reported += 1;
+                        }
+                        break; // the statement says nothing about what follows a reported gap
+                    } else {
+                        break; // repeated / older id: not judged
+                    }
+                }
+            }
+        }
+        if gap_case {
+            rep.nontrivial(digest(&format!("client{snapshot}{frames:?}")));
+        }
+        rep.outcome(digest(&format!("client{:?}", describe(&items))));
+        if let Some((k, why)) = fail {
+            rep.violation(k, json!({"part": "client library", "snapshot_first": snapshot, "frames": frames, "why": why, "client_yielded": describe(&items), "requests": reqs}));
+        }
+        if judged % 397 == 5 {
+            rep.sample(json!({"part": "client library", "frames": frames, "client_yielded": describe(&items)}));
+        }
+    }
+    rep.set("client_library", json!({"sequences_judged": judged, "gaps_reported_correctly": gaps_reported, "resumes_from_last_seen_id": resumes, "ids": ids, "resume_point": base, "max_changes": maxlen,
+        "variants": "connection broken before any change or after the last (client must resume from the last id it saw); one change undeserializable for the subscriber's row type"}));
+    if gaps_reported == 0 || resumes == 0 {
+        machinery_error("client part: no gap or no resume was exercised");
+    }
+    judged
+}
+
 fn main() {
     let cli = parse_cli();
     let rep = Report::new("C12", cli.tier, cli.seed);
@@ -458,6 +761,21 @@ fn main() {
     let tpl = Template::build(0, SCHEMA);
     if let Some(p) = &cli.replay {
         let r = load_replay(p);
+        if r["part"] == "client library" {
+            let frames: Vec<Fr> = serde_json::from_value(r["frames"].clone()).unwrap();
+            let snapshot = r["snapshot_first"].as_bool().unwrap_or(true);
+            let rt = tokio::runtime::Builder::new_multi_thread().worker_threads(2).enable_all().build().unwrap();
+            let (items, reqs) = rt.block_on(client_case(frames.clone(), snapshot, 2));
+            println!("frames: {frames:?}\nrequests: {reqs:?}");
+            for i in &items {
+                match i {
+                    Ok(e) => println!("client yielded ok {:?}", e.meta()),
+                    Err(e) => println!("client yielded err {e}"),
+                }
+            }
+            println!("recorded: {}", r["why"]);
+            std::process::exit(1);
+        }
         let case: Case = serde_json::from_value(r["case"].clone()).unwrap();
         let prefix: Vec<usize> = serde_json::from_value(r["prefix"].clone()).unwrap();
         let out = run_schedule(&tpl, &case, &prefix);
@@ -478,27 +796,33 @@ fn main() {
             Case { pre: 1, n: 2, from: Some(1), skip_rows: false },
         ],
     };
-    let deadline = Instant::now() + Duration::from_secs(cli.tier.pick(55, 1700));
+    // the client library's side of the property first (cheap, exhaustive, no time cap)
+    let client_cases = client_part(&rep, cli.tier);
+    let deadline = Instant::now() + Duration::from_secs(cli.tier.pick(45, 1700));
     let mut total = 0u64;
     let mut steps = 0u64;
     let mut capped = None;
-    let mut per_case = vec![];
-    'cases: for case in &cases {
-        // deviation-bounded exploration: all schedules with 0 departures from the default order
-        // (matcher first, then forwarder, then subscriber), then 1, then 2, ...
-        let mut buckets: Vec<Vec<Vec<usize>>> = vec![vec![vec![]]];
-        let mut n = 0u64;
-        let mut bound_completed: i64 = -1;
-        let mut level = 0;
-        while level < buckets.len() {
-            while let Some(prefix) = buckets[level].pop() {
+    // deviation-bounded exploration: all schedules with 0 departures from the default order
+    // (matcher first, then forwarder, then subscriber) for every case, then 1 for every case, ...
+    let mut buckets: Vec<Vec<Vec<Vec<usize>>>> = cases.iter().map(|_| vec![vec![vec![]]]).collect();
+    let mut counts = vec![0u64; cases.len()];
+    let mut bound_completed: Vec<i64> = vec![-1; cases.len()];
+    let mut level = 0;
+    'levels: loop {
+        if buckets.iter().all(|b| b.len() <= level) {
+            break;
+        }
+        for (ci, case) in cases.iter().enumerate() {
+            if buckets[ci].len() <= level {
+                continue;
+            }
+            while let Some(prefix) = buckets[ci][level].pop() {
                 if Instant::now() > deadline {
                     capped = Some(format!("wall-clock cap while exploring {case:?} at deviation bound {level}"));
-                    per_case.push(json!({"case": case, "schedules": n, "complete": false, "deviation_bound_completed": bound_completed}));
-                    break 'cases;
+                    break 'levels;
                 }
                 let out = run_schedule(&tpl, case, &prefix);
-                n += 1;
+                counts[ci] += 1;
                 total += 1;
                 steps += out.acts.len() as u64;
                 if !out.violations.is_empty() {
@@ -529,18 +853,26 @@ fn main() {
                         let mut p: Vec<usize> = (0..pos).map(|k| if k < prefix.len() { prefix[k] } else { 0 }).collect();
                         p.push(alt);
                         let dev = p.iter().filter(|c| **c != 0).count();
-                        while buckets.len() <= dev {
-                            buckets.push(vec![]);
+                        while buckets[ci].len() <= dev {
+                            buckets[ci].push(vec![]);
                         }
-                        buckets[dev].push(p);
+                        buckets[ci][dev].push(p);
                     }
                 }
             }
-            bound_completed = level as i64;
-            level += 1;
+            bound_completed[ci] = level as i64;
         }
-        per_case.push(json!({"case": case, "schedules": n, "complete": true, "deviation_bound_completed": bound_completed}));
+        level += 1;
     }
+    let per_case: Vec<Value> = cases
+        .iter()
+        .enumerate()
+        .map(|(ci, case)| {
+            let complete = buckets[ci].iter().all(|b| b.is_empty());
+            json!({"case": case, "schedules": counts[ci], "complete": complete, "deviation_bound_completed": bound_completed[ci]})
+        })
+        .collect();
+    rep.set("client_library_cases", client_cases);
     rep.set("states", total);
     rep.set("transitions", steps);
     rep.set("evaluations", total);
